@@ -1,6 +1,9 @@
 """C20 - middleware routing and static files."""
 FUNCTIONS = ['static_files.get_static_file', 'middleware.WSGIApp.not_found',
-             'middleware.WSGIApp.__call__', 'middleware.WSGIApp.__init__']
+             'middleware.WSGIApp.__call__', 'middleware.WSGIApp.__init__',
+             'async_drivers.asgi.ASGIApp.__init__', 'async_drivers.asgi.ASGIApp.__call__',
+             'async_drivers.asgi.ASGIApp.lifespan', 'async_drivers.asgi.ASGIApp.serve_static_file',
+             'async_drivers.asgi.ASGIApp.not_found']
 
 LEVEL_TEXT = ('WSGIApp.__call__ is verified against a routing contract over a ghost route log: the Engine.IO '
               'server is called exactly when PATH_INFO starts with the normalised endpoint (and then nothing '
@@ -8,12 +11,19 @@ LEVEL_TEXT = ('WSGIApp.__call__ is verified against a routing contract over a gh
               'opened) only through get_static_file, otherwise the wrapped application is called if there is '
               'one, otherwise 404; get_static_file never serves a request path with a ".." segment, and the '
               'served name is the mapped root followed by the unmatched suffix of the request path (loop '
-              'invariant path0 == path + extra_path)')
+              'invariant path0 == path + extra_path, postcondition with an explicit split witness); ASGIApp.__call__ is '
+              'verified against the same routing contract over the ASGI scope (lifespan scopes go to lifespan(); '
+              'http/websocket scopes under the endpoint - or every such scope when the endpoint is None - go to '
+              'the engine; a file is served only for http scopes, never for a path with "..", with status 200; '
+              'otherwise wrapped app or 404); lifespan() is verified against lifespan_answers (every startup '
+              'answered complete, at most one final failed / shutdown message, nothing sent and the wrapped app '
+              'called when no callbacks are configured)')
 LEVEL_NOTE = ('string-valued static mappings only (dict-valued entries with explicit content types are not '
               'modelled); os.path.exists / open are library contracts; "beneath the mapped directory" = no ".." '
               'segment in the appended suffix, which follows from the two proved clauses plus the str.split '
-              'contract (segments of a suffix are segments of the path) - that last step is assumed; ASGIApp '
-              '(routing, lifespan) is not yet under contract; the gunicorn socket adapter lines are an '
+              'contract (segments of a suffix are segments of the path) - that last step is assumed; ASGI '
+              'receive/send callables and lifespan callbacks are library contracts (receive yields a dict with '
+              'a type, send delivers, a callback returns or raises); the gunicorn socket adapter lines are an '
               'abstract region')
-NOT_DECIDED = ['ASGIApp routing and lifespan', 'dict-valued static file entries', 'symlinks / percent-encoded segments (the gateway decodes)']
+NOT_DECIDED = ['dict-valued static file entries', 'symlinks / percent-encoded segments (the gateway decodes)']
 ASSUMPTIONS = [LEVEL_NOTE]
